@@ -314,11 +314,11 @@ def corpus_cases() -> list[Case]:
 
 
 def probes(run: Run) -> None:
-    """front-end defects found while building this check; each is re-run every time and reported under
-    its own narrow signature"""
+    """front-end defects found while building this check (both fixed since: 0d18e90f, 50178e77); each is re-run
+    every time so that a regression is reported under its own narrow signature"""
     g = '<start> ::= <a>\n<a> ::= <b> <b> <b>\n<b> ::= "x" | "y" | "1"\n'
     word = "xy1"
-    # F12: every `{…}` selector raises ValueError
+    # F12 (fixed): every `{…}` selector raised ValueError
     try:
         _, cons = I.parse_spec(g + 'where str(<start>.<a>{*<b>}) == "x"\n')
         gg, _ = I.parse_spec(g)
@@ -503,10 +503,10 @@ def main(tier: str) -> int:
     process(run, corpus_cases(), rng, corr, stats)
     probes(run)
     if tier == "quick":
-        n_grammars, per_grammar, n_trees = 45, 22, 4
+        n_grammars, per_grammar, n_trees = 80, 22, 4
     else:
         n_grammars, per_grammar, n_trees = 420, 30, 5
-    budget = 120 if tier == "quick" else 1100
+    budget = 160 if tier == "quick" else 1250
     done = 0
     while done < n_grammars and time.time() - t0 < budget:
         k = min(15, n_grammars - done)
@@ -532,7 +532,7 @@ def main(tier: str) -> int:
         lean,
         rule="constraint programs (depth <= 4: expr/cmp atoms over str/int/len/startswith/in/not/and/or, conj, disj, impl, "
              "all/any with non-terminal or variable bound, legacy forall/exists; selectors rule . .. [i] [a:b:s] * |..| "
-             "nested <= 3, incl. negative/out-of-range indices) x 45+ random grammars (2-4 non-terminals, optional "
+             "nested <= 3, incl. negative/out-of-range indices) x 80+ random grammars (2-4 non-terminals, optional "
              "recursion) x 4 trees (real parser or hand-built), terminals half numeric so int() raises on part of "
              "the language; evaluated eager / lazy / as generated (objects) and through the real front end (text); "
              "non-trivial = verdict varies over the trees or a combination raised; distinct by (grammar, program)",
